@@ -52,8 +52,8 @@ type Refine struct {
 type Path struct {
 	Choices []Choice
 	Effects []Effect
-	Ret     Val    // result (Tuple for several)
-	Panic   bool   // ended in an explicit panic instruction
+	Ret     Val  // result (Tuple for several)
+	Panic   bool // ended in an explicit panic instruction
 	PanicV  Val
 	Abort   string // non-empty: the evaluator could not follow the path
 	Refine  *Refine
